@@ -52,3 +52,42 @@ Proof.
   - vm_compute. discriminate.
   - vm_compute. reflexivity.
 Qed.
+
+(** Non-vacuity of C05_keyphase_histories: the symbolic AEAD satisfies both hypotheses, and
+    there is a reachable state of the composed system in which a packet of the PREVIOUS
+    generation is still in flight while the receiver holds the previous keys (so the third
+    disjunct of the window condition is inhabited), and one in which a packet of the NEXT
+    generation is in flight. *)
+From V Require Import PktProt.KeyPhaseSys PktProt.KeyPhaseSysProofs.
+
+Lemma sym_open_wrong_key (k k' : key) n ad p : k <> k' -> sym_open k n ad (sym_seal k' n ad p) = None.
+Proof.
+  intros Hne. unfold sym_open, sym_seal. destruct k as [d g], k' as [d' g']. cbn.
+  destruct (Z.eqb_spec d' d) as [->|]; [|reflexivity]. destruct (Z.eqb_spec g' g) as [->|]; [|reflexivity].
+  congruence.
+Qed.
+
+Definition sys_example_ops : list (sop Z Z) :=
+  [ SConfirm _ _ true; SConfirm _ _ false;
+    SSeal _ _ true 0 0 100;        (* #0: true -> false, generation 0 *)
+    SSeal _ _ false 0 0 200;       (* #1: false -> true, generation 0, stays in flight *)
+    SDeliver _ _ 0 10 50;
+    SKeyPhase _ _ true;            (* true initiates 0 -> 1 *)
+    SSeal _ _ true 0 0 101 ].      (* #2: generation 1 *)
+
+Definition sys_example : sys Z Z :=
+  srun sct Z Z sym_seal sym_open window_example_cfg (sinit Z Z 10 (fun _ => 0)) sys_example_ops.
+
+Lemma sys_example_ok :
+  (* packet #1 (generation 0) towards endpoint true, which is in phase 1 and keeps the previous keys *)
+  (exists p, nth_error (sent sys_example) 1 = Some p /\ p_from p = false /\
+             p_gen p = keyPhase (ep (sd sys_example true)) - 1 /\
+             prevRcvAEAD (ep (sd sys_example true)) <> None /\ dropped_now (ep (sd sys_example true)) 20 = false) /\
+  (* packet #2 (generation 1) towards endpoint false, which is still in phase 0 *)
+  (exists p, nth_error (sent sys_example) 2 = Some p /\ p_from p = true /\
+             p_gen p = keyPhase (ep (sd sys_example false)) + 1).
+Proof.
+  split.
+  - eexists. split; [vm_compute; reflexivity|]. vm_compute. repeat split; discriminate.
+  - eexists. split; [vm_compute; reflexivity|]. vm_compute. repeat split.
+Qed.
